@@ -388,6 +388,13 @@ impl FunctionStatement {
     pub fn remove_method(&mut self) {
         if let Some(method_name) = self.name.remove_method() {
             self.name.push_field(method_name);
+            if let Some(tokens) = &mut self.tokens {
+                // the comma tokens are positional: `self` needs one of its own, otherwise the
+                // existing commas (and their lines and trivia) move one parameter to the left
+                if !self.parameters.is_empty() || self.is_variadic {
+                    tokens.parameter_commas.insert(0, Token::from_content(","));
+                }
+            }
             self.parameters.insert(0, TypedIdentifier::new("self"));
         }
     }
